@@ -661,4 +661,29 @@ pub mod verif {
 		}
 		out
 	}
+
+	#[derive(Debug, Clone, PartialEq, Eq)]
+	pub struct FileCacheEntry {
+		/// `Display` of the entry's `SourcePath`
+		pub path: String,
+		pub parsed: bool,
+		pub evaluated: bool,
+		pub evaluating: bool,
+	}
+	/// Entries of the import cache of the state, sorted by path
+	#[must_use]
+	pub fn file_cache_entries(state: &State) -> Vec<FileCacheEntry> {
+		let cache = state.0.file_cache.borrow();
+		let mut out: Vec<_> = cache
+			.iter()
+			.map(|(path, file)| FileCacheEntry {
+				path: path.to_string(),
+				parsed: file.parsed.is_some(),
+				evaluated: file.evaluated.is_some(),
+				evaluating: file.evaluating,
+			})
+			.collect();
+		out.sort_by(|a, b| a.path.cmp(&b.path));
+		out
+	}
 }
